@@ -170,6 +170,50 @@ StepResult(e, m1, rg1) ==
                             IF bad # {} THEN "err:value-of-existing-object-changed" ELSE "">>) \o ReadClauses(heap, m1, e),
           hp |-> heap]
 
+(* ------------------------------ pickle (C20) ------------------------------ *)
+(* group: <<ob, oa, nb, na>> old object -> unpickled twin.  The twin relation is extended along references    *)
+(* (old referent -> the address the twin's reference decodes to); nothing is assumed about where the copies    *)
+(* land, only that the relation is a bijection on objects and that values are equal.                           *)
+PStep(m1, x) ==
+  LET o == HeapAt(heap, x.ob, x.oa)
+      d == Decode(o.t, m1[x.nb], x.na)
+  IN {[ob |-> x.ob, oa |-> p[1].at, nb |-> x.nb, na |-> p[2].at, t |-> TargetType(p[3], p[1].tid)] :
+        p \in {q \in RefPairs(o.t, o.v, d) : ~q[1].null /\ ~q[2].null /\ q[1].tid = q[2].tid}}
+RECURSIVE PClosure(_, _, _)
+PClosure(m1, S, n) ==
+  IF n = 0 THEN S
+  ELSE LET ok == {x \in S : InHeap(heap, x.ob, x.oa) /\ WF(x.t, m1[x.nb], x.na) = ""}
+           S2 == S \cup UNION {PStep(m1, x) : x \in ok}
+       IN IF S2 = S THEN S ELSE PClosure(m1, S2, n - 1)
+PickleResult(e, m1) ==
+  LET G == {[ob |-> e.group[i][1], oa |-> e.group[i][2], nb |-> e.group[i][3], na |-> e.group[i][4],
+             t |-> HeapAt(heap, e.group[i][1], e.group[i][2]).t] : i \in 1..Len(e.group)}
+      C == PClosure(m1, G, 8)
+      wfs == {WF(x.t, m1[x.nb], x.na) : x \in C} \ {""}
+      twin(x) == Decode(x.t, m1[x.nb], x.na)
+      orig(x) == HeapAt(heap, x.ob, x.oa)
+  IN [cl |-> IF e.exc # "" THEN <<"pickle:raised">>
+             ELSE IF \E x \in G : Len(mem[x.nb]) # 0 THEN <<"pickle:not-a-fresh-buffer">>
+             ELSE IF wfs # {} THEN <<"pickle:" \o (CHOOSE w \in wfs : TRUE)>>
+             ELSE NonEmpty(<<
+               IF \E x \in C : Mask(x.t, twin(x)) # Mask(x.t, orig(x).v)
+                 THEN LET x == CHOOSE x \in C : Mask(x.t, twin(x)) # Mask(x.t, orig(x).v) IN "pickle:value@" \o Where(x.t, Mask(x.t, orig(x).v), Mask(x.t, twin(x))) ELSE "",
+               IF \E x \in C : \E p \in RefPairs(x.t, orig(x).v, twin(x)) : p[1].null # p[2].null \/ p[1].tid # p[2].tid THEN "pickle:ref" ELSE "",
+               IF \E x, y \in C : x.ob = y.ob /\ x.oa = y.oa /\ ~(x.nb = y.nb /\ x.na = y.na) THEN "pickle:sharing-lost" ELSE "",
+               IF \E x, y \in C : x.nb = y.nb /\ x.na = y.na /\ ~(x.ob = y.ob /\ x.oa = y.oa) THEN "pickle:objects-merged" ELSE "",
+               IF \E x, y \in G : (x.ob = y.ob) # (x.nb = y.nb) THEN "pickle:buffer-sharing" ELSE "" >>),
+      hp |-> heap \cup {[b |-> x.nb, a |-> x.na, t |-> x.t, v |-> twin(x)] : x \in {y \in C : WF(y.t, m1[y.nb], y.na) = ""}}]
+PickleReg(e) == [b \in 1..Len(reg) |->
+                   IF \E i \in 1..Len(e.group) : e.group[i][3] = b
+                   THEN reg[e.group[CHOOSE i \in 1..Len(e.group) : e.group[i][3] = b][1]] ELSE reg[b]]
+
+(* every region handed out by allocate is disjoint from every region that is live *)
+AllocClauses(e) ==
+  NonEmpty(<<IF \E i \in 1..Len(e.alloc) : e.alloc[i][3] > 0 /\
+                 \E r \in (reg[e.alloc[i][1]] \ RegSet(e.free, e.alloc[i][1])) :
+                    r[2] > 0 /\ Overl(e.alloc[i][2], e.alloc[i][2] + e.alloc[i][3], r[1], r[1] + r[2])
+             THEN "alloc:overlaps-live-region" ELSE "">>)
+
 TraceInit ==
   /\ tid \in 1..Len(Hist)
   /\ l = 1 /\ done = FALSE
@@ -181,8 +225,9 @@ TraceStep ==
   /\ ~done /\ l <= Len(Steps(tid))
   /\ LET e == Steps(tid)[l]
          m1 == ApplyMem(mem, e)
-         rg1 == ApplyReg(reg, e)
-         res == StepResult(e, m1, rg1)
+         rg1 == IF e.op = "pickle" THEN PickleReg(e) ELSE ApplyReg(reg, e)
+         res0 == IF e.op = "pickle" THEN PickleResult(e, m1) ELSE StepResult(e, m1, rg1)
+         res == [cl |-> AllocClauses(e) \o res0.cl \o (IF e.op = "pickle" THEN ReadClauses(res0.hp, m1, e) ELSE <<>>), hp |-> res0.hp]
      IN /\ mem' = m1 /\ reg' = rg1 /\ heap' = res.hp
         /\ IF res.cl # <<>>
            THEN /\ PrintT(<<"VERDICT", tid, l, Join(res.cl)>>) /\ done' = TRUE /\ l' = l
